@@ -1356,6 +1356,12 @@ func (g *gen05) constants() {
 		sp.Devices[0].ContainerEdits.DeviceNodes = []*specs.DeviceNode{{Path: "/dev/x", Type: t}}
 		g.addSpec("constants/node type", map[string]interface{}{"type": t}, sp, true)
 	}
+	for _, t := range c.NodeTypes {
+		// a permission string outside rwm is a defect whatever the (legal) node type
+		sp := base()
+		sp.Devices[0].ContainerEdits.DeviceNodes = []*specs.DeviceNode{{Path: "/dev/x", Type: t, Permissions: "rwx"}}
+		g.addSpec("constants/bad permissions per node type", map[string]interface{}{"type": t, "permissions": "rwx"}, sp, true)
+	}
 	for _, p := range append(append([]string{}, c.PermChars...), "x", "R", "rwmx") {
 		sp := base()
 		sp.Devices[0].ContainerEdits.DeviceNodes = []*specs.DeviceNode{{Path: "/dev/x", Permissions: "r" + p}}
